@@ -182,6 +182,7 @@ type play struct {
 	hbSent     int64 // value of the last heartbeat whose Send returned
 	unscripted int   // streams that ended without the script asking for it (before the case was over)
 	hbNext     atomic.Int64
+	stalled    bool
 	// only touched by the handler holding serial
 	m  *model
 	ts int64
@@ -227,6 +228,16 @@ func (p *play) heartbeats(h *hub, g *guarded) (stop func()) {
 				return
 			case <-tk.C:
 			}
+			if debugStall > 0 {
+				// self-test of the harness (flag -c01.stall): once, after the script is through, behave like a stalled machine
+				h.mu.Lock()
+				stall := p.done && !p.stalled
+				p.stalled = p.stalled || stall
+				h.mu.Unlock()
+				if stall {
+					time.Sleep(debugStall)
+				}
+			}
 			g.mu.Lock()
 			if g.quiet {
 				g.mu.Unlock()
@@ -248,6 +259,11 @@ func (p *play) heartbeats(h *hub, g *guarded) (stop func()) {
 	}()
 	return func() { close(quit); <-done }
 }
+
+// debugStall (flag -c01.stall) makes the heartbeats of a target with a receive timeout pause once for this long
+// after the script is through: the collector's watchdog then fires at an instant no script chose. Cases must
+// end without a verdict against the code (or pass); used to test the harness, 0 in every registered part.
+var debugStall time.Duration
 
 const (
 	maxAwait = 3 * time.Second // a script waits at most this long for an observer
